@@ -3,7 +3,7 @@
 from . import tlc
 
 LEAVES = {"x": ["v", "x"], "y": ["v", "y"], "sz": ["v", "<state>z"], "pw": ["v", "<p>w"],
-          "c0": ["c", 0], "c1": ["c", 1], "c2": ["c", 2], "cm1": ["c", -1]}
+          "c0": ["c", 0], "c1": ["c", 1], "c2": ["c", 2], "cm1": ["c", -1], "p": ["v", "p"], "q": ["v", "q"]}
 ARITY = {"sum2": 2, "sum3": 3, "prod2": 2, "neg": 1, "pow2": 1, "powc": 1, "quot": 2, "callf": 1, "callfk": 2,
          "callg": 2, "sub": 1, "min2": 2, "max2": 2, "if": 3, "lt": 2, "eq": 2, "ne": 2, "ge": 2, "and2": 2,
          "or2": 2, "not": 1}
@@ -59,10 +59,25 @@ def build(toks):
     return e
 
 
-def generate(chk, max_tokens, full=True, roots=("a",), simulate=None, depth=None):
-    cfg = tlc.temp_cfg("CONSTANTS\n MaxTokens = %d\n RootSorts = {%s}\n Full = %s\nINIT Init\nNEXT Next\n"
+ALL_LEAVES = ["x", "y", "sz", "pw", "c0", "c1", "c2", "cm1"]
+SETS = {
+    "full": ALL_LEAVES + list(ARITY),
+    "small": ["x", "y", "sz", "c1", "c2", "cm1", "sum2", "prod2", "neg", "pow2", "callf", "callfk", "sub", "if", "lt",
+              "and2", "not"],
+    "arith": ALL_LEAVES + ["sum2", "sum3", "prod2", "neg", "pow2", "powc", "quot", "callf", "callfk", "callg", "sub"],
+    "template": ["p", "q", "x", "c1", "c2", "sum2", "sum3", "prod2", "neg", "callf", "callfk", "callg"],
+    "arith-small": ["x", "y", "sz", "c1", "c2", "cm1", "sum2", "sum3", "prod2", "neg", "pow2", "callf", "callfk", "callg"],
+}
+
+
+def generate(chk, max_tokens, full="full", roots=("a",), simulate=None, depth=None):
+    if full is True:
+        full = "full"
+    elif full is False:
+        full = "small"
+    cfg = tlc.temp_cfg("CONSTANTS\n MaxTokens = %d\n RootSorts = {%s}\n Allowed = {%s}\nINIT Init\nNEXT Next\n"
                        "CHECK_DEADLOCK FALSE\nINVARIANT Dump\n"
-                       % (max_tokens, ", ".join('"%s"' % r for r in roots), "TRUE" if full else "FALSE"))
+                       % (max_tokens, ", ".join('"%s"' % r for r in roots), ", ".join('"%s"' % t for t in SETS[full])))
     if simulate:
         res = tlc.run_tlc("ExprGen", cfg=cfg, workers=1, simulate="num=%d" % simulate, depth=depth or max_tokens + 1,
                           seed=chk.seed)
